@@ -1244,4 +1244,107 @@ theorem loadNames_inside (c : Cls) (enc : Enc) (isLazy : Bool) (hdr : Bytes) (im
     · simp only [hjn, if_false]
       exact ⟨!isLazy, SecSt_withName _ _ _ _ _ _ _ _ _ (hsecs j hj), by intro h; simp [h]⟩
 
+/-! ### segments rung and assembly -/
+
+theorem loadSegs_inside (o : Obj) (c : Cls) (enc : Enc) (isLazy : Bool) (hdr : Bytes) (img : Bytes) (ls : LoadSt)
+    (secs : List SecBuf) (htr : o.trans = [])
+    (hd : ls.st.data = img) (he : ls.st.eof = false) (hf : ls.st.fail = false)
+    (h63 : img.length < 9223372036854775808)
+    (hbad : load_segments_entsize_bad (Hdr.e_phnum c enc hdr) (Hdr.ident hdr EI_CLASS) (Hdr.e_phentsize c enc hdr) = false)
+    (hall : ∀ j, j < (Hdr.e_phnum c enc hdr).toNat →
+      (Hdr.e_phoff c enc hdr).toNat + j * (Hdr.e_phentsize c enc hdr).toNat + phdrSize c ≤ img.length ∧
+      SegInside img.length (segHdr c enc img
+        ((Hdr.e_phoff c enc hdr).toNat + j * (Hdr.e_phentsize c enc hdr).toNat) isLazy)) :
+    (loadSegs o c enc hdr isLazy ls secs).ok = true ∧
+    (loadSegs o c enc hdr isLazy ls secs).obj.secs = secs ∧
+    (loadSegs o c enc hdr isLazy ls secs).obj.cls = o.cls ∧
+    (loadSegs o c enc hdr isLazy ls secs).obj.enc = o.enc ∧
+    (loadSegs o c enc hdr isLazy ls secs).obj.hdr = o.hdr ∧
+    (loadSegs o c enc hdr isLazy ls secs).obj.trans = o.trans ∧
+    (loadSegs o c enc hdr isLazy ls secs).obj.stream.data = img ∧
+    (loadSegs o c enc hdr isLazy ls secs).obj.stream.eof = false ∧
+    (loadSegs o c enc hdr isLazy ls secs).obj.stream.fail = false ∧
+    (loadSegs o c enc hdr isLazy ls secs).obj.stream.kind = ls.st.kind ∧
+    (loadSegs o c enc hdr isLazy ls secs).obj.segs.length = (Hdr.e_phnum c enc hdr).toNat ∧
+    ∀ j (h : j < (loadSegs o c enc hdr isLazy ls secs).obj.segs.length),
+      (loadSegs o c enc hdr isLazy ls secs).obj.segs[j] =
+        segFinal c enc img ((Hdr.e_phoff c enc hdr).toNat + j * (Hdr.e_phentsize c enc hdr).toNat) isLazy j secs := by
+  unfold loadSegs
+  simp only [hbad, Bool.false_eq_true, if_false, htr]
+  by_cases hn : (Hdr.e_phnum c enc hdr).toNat = 0
+  · rw [hn]
+    simp only [loadSegmentsLoop, List.reverse_nil, List.length_nil]
+    refine ⟨?_, ?_, ?_, ?_, ?_, ?_, ?_, ?_, ?_, ?_, ?_, fun j h => absurd h (by simp)⟩ <;>
+      first | trivial | rfl | exact hd | exact he | exact hf | simp [htr]
+  · have h0 := (hall 0 (by omega)).1
+    have hlt : (Hdr.e_phoff c enc hdr).toNat < 9223372036854775808 := by omega
+    rw [toInt_of_lt _ hlt]
+    have h := loadSegmentsLoop_inside c enc isLazy (Hdr.e_phoff c enc hdr).toNat (Hdr.e_phentsize c enc hdr).toNat
+      img h63 secs (Hdr.e_phnum c enc hdr).toNat 0 ls [] hd he hf (fun j _ hj => hall j (by omega))
+    obtain ⟨g1, g2, g3, g4, g5, l, g6, g7, g8⟩ := h
+    simp only [List.reverse_nil, List.nil_append] at g6
+    refine ⟨?_, ?_, ?_, ?_, ?_, ?_, ?_, ?_, ?_, ?_, ?_, ?_⟩
+    any_goals first | trivial | rfl | exact g5 | exact g1 | exact g2 | exact g3 | exact g4 | (simp only [g6, g7]; done) | (simp [htr]; done)
+    intro j hj
+    have := g8 j (by simp only [g6] at hj; exact hj)
+    simp only [Nat.zero_add] at this
+    simp only [g6]
+    exact this
+
+/-- **sections, names and segments rungs assembled** : everything after the gate, on an image that
+    contains all its tables and ranges -/
+theorem loadBody_inside (o : Obj) (c : Cls) (enc : Enc) (isLazy : Bool) (hdr : Bytes) (img : Bytes) (st : IStream)
+    (htr : o.trans = [])
+    (hd : st.data = img) (he : st.eof = false) (hf : st.fail = false)
+    (h63 : img.length < 9223372036854775808)
+    (hbadS : load_sections_entsize_bad (Hdr.e_shnum c enc hdr) (Hdr.ident hdr EI_CLASS) (Hdr.e_shentsize c enc hdr) = false)
+    (hbadP : load_segments_entsize_bad (Hdr.e_phnum c enc hdr) (Hdr.ident hdr EI_CLASS) (Hdr.e_phentsize c enc hdr) = false)
+    (hallS : ∀ j, j < (Hdr.e_shnum c enc hdr).toNat →
+      (Hdr.e_shoff c enc hdr).toNat + j * (Hdr.e_shentsize c enc hdr).toNat + shdrSize c ≤ img.length ∧
+      SecInside img.length (secHdr c enc img
+        ((Hdr.e_shoff c enc hdr).toNat + j * (Hdr.e_shentsize c enc hdr).toNat) isLazy j))
+    (hallP : ∀ j, j < (Hdr.e_phnum c enc hdr).toNat →
+      (Hdr.e_phoff c enc hdr).toNat + j * (Hdr.e_phentsize c enc hdr).toNat + phdrSize c ≤ img.length ∧
+      SegInside img.length (segHdr c enc img
+        ((Hdr.e_phoff c enc hdr).toNat + j * (Hdr.e_phentsize c enc hdr).toNat) isLazy))
+    (hndx : (Hdr.e_shstrndx c enc hdr).toNat = 0 ∨
+      (Hdr.e_shstrndx c enc hdr).toNat < (Hdr.e_shnum c enc hdr).toNat) :
+    ∃ r : LoadRes, loadBody o c enc hdr st isLazy = .ok r ∧ r.ok = true ∧
+      r.obj.cls = o.cls ∧ r.obj.enc = o.enc ∧ r.obj.hdr = o.hdr ∧ r.obj.trans = o.trans ∧
+      r.obj.stream.data = img ∧ r.obj.stream.eof = false ∧ r.obj.stream.fail = false ∧
+      r.obj.stream.kind = st.kind ∧
+      r.obj.secs.length = (Hdr.e_shnum c enc hdr).toNat ∧
+      (∀ j (h : j < r.obj.secs.length), ∃ res : Bool,
+        SecSt c enc img ((Hdr.e_shoff c enc hdr).toNat + j * (Hdr.e_shentsize c enc hdr).toNat) isLazy j res
+          (nameOf (strtabOf c enc img (Hdr.e_shoff c enc hdr).toNat (Hdr.e_shentsize c enc hdr).toNat isLazy
+                    (Hdr.e_shstrndx c enc hdr).toNat)
+            (secHdr c enc img ((Hdr.e_shoff c enc hdr).toNat + j * (Hdr.e_shentsize c enc hdr).toNat)
+              isLazy j).nameOff.toNat) r.obj.secs[j] ∧
+        (isLazy = false → res = true)) ∧
+      r.obj.segs.length = (Hdr.e_phnum c enc hdr).toNat ∧
+      ∀ j (h : j < r.obj.segs.length),
+        r.obj.segs[j] =
+          segFinal c enc img ((Hdr.e_phoff c enc hdr).toNat + j * (Hdr.e_phentsize c enc hdr).toNat) isLazy j
+            r.obj.secs := by
+  have hS := loadSections_inside c enc isLazy hdr st img hd he hf h63 hbadS hallS
+  obtain ⟨s1, s2, s3, s4, s5, s6⟩ := hS
+  have hN := loadNames_inside c enc isLazy hdr img (loadSections c enc [] isLazy hdr st).1
+    (loadSections c enc [] isLazy hdr st).2 (Hdr.e_shoff c enc hdr).toNat (Hdr.e_shentsize c enc hdr).toNat
+    s1 h63 hbadS (by rw [s5]; exact hndx) (fun j hj => (hallS j (by rw [s5] at hj; exact hj)).2) s6
+  obtain ⟨ls', secs', n1, n2, n3, n4, n5, n6, n7⟩ := hN
+  have hG := loadSegs_inside o c enc isLazy hdr img ls' secs' htr n2 (by rw [n3]; exact s2) (by rw [n4]; exact s3)
+    h63 hbadP hallP
+  obtain ⟨p1, p2, p3, p4, p5, p6, p7, p8, p9, p10, p11, p12⟩ := hG
+  refine ⟨loadSegs o c enc hdr isLazy ls' secs', ?_, p1, p3, p4, p5, p6, p7, p8, p9, by rw [p10, n5, s4], ?_, ?_,
+    p11, ?_⟩
+  · unfold loadBody
+    rw [htr, n1]
+    rfl
+  · rw [p2, n6, s5]
+  · intro j h
+    simp only [p2] at h ⊢
+    exact n7 j h
+  · intro j h
+    rw [p12 j h, p2]
+
 end ElfioVerif
